@@ -369,10 +369,17 @@ def run(tier, seed, replay=None):
         ps.ok = False
         ps.broken.append("driver missing")
     live = {}
+    # how many of the checked function bodies satisfy the hypothesis of the mirror-soundness theorems (C01_mirror_sound_notry / C01_mirror_sound)
+    frag = {"functions": 0, "in_S2_fragment_no_try": 0, "in_S3_fragment_with_try": 0}
     if live_out:
         for (si, name), o in zip(where, live_out):
             ls = o.split("|")[0]
             live[(si, name)] = set(int(x) for x in ls.split(",") if x)
+            parts = o.split("|")
+            if len(parts) >= 4:
+                frag["functions"] += 1
+                frag["in_S2_fragment_no_try"] += parts[2] == "1"
+                frag["in_S3_fragment_with_try"] += parts[3] == "1"
     exec_out = run_cpython(instr)
     nviol_pairs, model_diffs, glue_bad, cpy_not_in_live = 0, 0, 0, 0
     hist = {"functions": 0, "with_findings": 0, "live_lines": 0, "cpython_executed_ids": 0, "constructs": {}}
@@ -462,5 +469,6 @@ def run(tier, seed, replay=None):
         "traces_validated_against_impl": len(funcs) - model_diffs,
         "cfg_model_diffs": model_diffs, "parser_glue_mismatches": glue_bad, "cpython_outside_live": cpy_not_in_live, "flagged_live_lines": nviol_pairs,
         "distribution": hist,
+        "mirror_theorem_fragment": frag,
     })
     return res.finish("proof")
